@@ -789,6 +789,13 @@ v("c11-n-heapify-gt-minus-one", "C11", "none", [(HEAP, "for i := n/2 - 1; i >= 0
 v("c11-n-heapify-from-last", "C11", "none", [(HEAP, "for i := n/2 - 1; i >= 0; i-- {", "for i := n - 1; i >= 0; i-- {")])
 v("c11-n-heapify-len-inline", "C11", "none", [(HEAP, "for i := n/2 - 1; i >= 0; i-- {", "for i := len(items)/2 - 1; 0 <= i; i-- {")])
 v("c05-sequence-stops-at-failure-result", "C05", "C05.i", [("storage/table/fsm/command_sequence.go", "\t\t_, cmdRes, err := wrapCommand(cmd).handle(ctx)\n\t\tif err != nil {\n\t\t\treturn ResultFailure, nil, err\n\t\t}\n\t\tres.Responses = append(res.Responses, cmdRes.Responses...)\n", "\t\tresult, cmdRes, err := wrapCommand(cmd).handle(ctx)\n\t\tif err != nil {\n\t\t\treturn ResultFailure, nil, err\n\t\t}\n\t\tres.Responses = append(res.Responses, cmdRes.Responses...)\n\t\tif result != ResultSuccess {\n\t\t\treturn result, res, nil\n\t\t}\n")], "agent change C05-r5m2")
+v("c14-key-through-path-join", "C14", "C14.n", [(MGR, "import (\n", "import (\n\t\"path\"\n"), (MGR, "\treturn fmt.Sprintf(\"%s%s\", keyPrefix, name)", "\treturn path.Join(keyPrefix, name)")], "agent change C14-r5m2")
+v("c14-key-lowercased", "C14", "C14.n", [(MGR, "\treturn fmt.Sprintf(\"%s%s\", keyPrefix, name)", "\treturn fmt.Sprintf(\"%s%s\", keyPrefix, strings.ToLower(name))")])
+v("c14-listing-other-directory", "C14", "C14.n", [(MGR, "m.store.GetAll(keyPrefix + \"*\")", "m.store.GetAll(\"/table/*\")")])
+v("c14-n-key-concat", "C14", "none", [(MGR, "\treturn fmt.Sprintf(\"%s%s\", keyPrefix, name)", "\treturn keyPrefix + name")])
+v("c14-n-key-sprintf-one-verb", "C14", "none", [(MGR, "\treturn fmt.Sprintf(\"%s%s\", keyPrefix, name)", "\treturn fmt.Sprintf(\"/tables/%s\", name)")])
+v("c14-n-key-via-local", "C14", "none", [(MGR, "\treturn fmt.Sprintf(\"%s%s\", keyPrefix, name)", "\tk := keyPrefix + name\n\treturn k")])
+v("c02-existence-predicate-skips-reset", "C02", "C02.i", [(TXN, "\t\t\t\tif !txnCompareSingle(cmp, value) {\n\t\t\t\t\treturn false, nil\n\t\t\t\t}\n\n\t\t\t\tkeyBuf.Reset()", "\t\t\t\tif cmp.TargetUnion == nil {\n\t\t\t\t\treturn true, nil\n\t\t\t\t}\n\t\t\t\tif !txnCompareSingle(cmp, value) {\n\t\t\t\t\treturn false, nil\n\t\t\t\t}\n\n\t\t\t\tkeyBuf.Reset()")], "agent change C02-r5m1")
 v("c11-create-starts-recovery-id", "C11", "C11.g", [(MGR, "\treturn created, m.startTable(created.Name, created.ClusterID)", "\treturn created, m.startTable(created.Name, created.RecoverID)")], "a third call site that starts a recovery shard with the table-name listener (K2 is keyed to Restore, K3 to reconcile)")
 v("c11-n-difftables-only-serving-ids", "C11", "none", [(MGR, "\t\tif t.RecoverID != 0 {\n\t\t\ttableIDs[t.RecoverID] = t\n\t\t}\n", "")], "the reconciliation no longer starts recovery shards: the reconcile site is not a recovery start (K3 line disappears, no alarm)")
 
